@@ -504,7 +504,7 @@ func (e *Engine) locTerms(st *State, p PtrV) []Term {
 func (e *Engine) locString(st *State, p PtrV) string {
 	var parts []string
 	for _, t := range e.locTerms(st, p) {
-		parts = append(parts, t.S)
+		parts = append(parts, e.ctx.Canon(t.S))
 	}
 	return strings.Join(parts, "/")
 }
@@ -639,6 +639,14 @@ func (e *Engine) scanGlobal(g *ssa.Global) globalInitInfo {
 					case *ssa.Convert:
 						if c, ok := v.X.(*ssa.Const); ok {
 							info.consts[suffix] = e.constVal(scratch, ssa.NewConst(c.Value, v.Type()))
+						}
+					case *ssa.Call:
+						// sentinel errors: var errX = errors.New("...")
+						if callee := v.Call.StaticCallee(); callee != nil && (callee.String() == "errors.New" || callee.String() == "fmt.Errorf") {
+							name := g.Pkg.Pkg.Path() + "." + g.Name() + suffix
+							pay := e.ctx.Const("globerr:"+name, SInt)
+							e.ctx.Axiom("globerr:"+name, []string{"globerr:" + name}, And(Lt(IntLit(0), pay), Lt(pay, e.ctx.Const("nextRef0", SInt))))
+							info.consts[suffix] = IfaceV{Tag: e.typeTag(types.NewPointer(types.Universe.Lookup("error").Type())), Pay: pay}
 						}
 					}
 				default:
